@@ -422,14 +422,14 @@ argument holds. -/
 theorem and_set_correct (ops : NumOps α) (f : Fit α) (cfg : Cfg) (hcfg : cfg.junctionKeepsNot = true)
     {same : Q α → Q α → Bool} (hs : SoundEq same) (key : Q α → String) (fuel : Nat)
     (cs : List (Q α)) (o : Obj α) (hwf : o.WF = true) :
-    sem ops f (mkJS cfg same key fuel true cs) o = cs.all (fun c => sem ops f c o) := by
+    sem ops f (mkJS cfg true same key fuel true cs) o = cs.all (fun c => sem ops f c o) := by
   simpa [jsem] using mkJS_sem ops f cfg hcfg hs key fuel true cs o hwf
 
 /-- **Or, as a set.** -/
 theorem or_set_correct (ops : NumOps α) (f : Fit α) (cfg : Cfg) (hcfg : cfg.junctionKeepsNot = true)
     {same : Q α → Q α → Bool} (hs : SoundEq same) (key : Q α → String) (fuel : Nat)
     (cs : List (Q α)) (o : Obj α) (hwf : o.WF = true) :
-    sem ops f (mkJS cfg same key fuel false cs) o = cs.any (fun c => sem ops f c o) := by
+    sem ops f (mkJS cfg true same key fuel false cs) o = cs.any (fun c => sem ops f c o) := by
   simpa [jsem] using mkJS_sem ops f cfg hcfg hs key fuel false cs o hwf
 
 /-- **Idempotence under duplicates / order.** What a junction means depends only on *which* conditions it is given:
@@ -437,7 +437,7 @@ repeating a condition (`A & B & A`) or permuting them changes nothing, for `And`
 theorem junction_depends_on_set (ops : NumOps α) (f : Fit α) (cfg : Cfg) (hcfg : cfg.junctionKeepsNot = true)
     {same : Q α → Q α → Bool} (hs : SoundEq same) (key : Q α → String) (fuel : Nat) (isAnd : Bool)
     (cs₁ cs₂ : List (Q α)) (h : ∀ x, x ∈ cs₁ ↔ x ∈ cs₂) (o : Obj α) (hwf : o.WF = true) :
-    sem ops f (mkJS cfg same key fuel isAnd cs₁) o = sem ops f (mkJS cfg same key fuel isAnd cs₂) o := by
+    sem ops f (mkJS cfg true same key fuel isAnd cs₁) o = sem ops f (mkJS cfg true same key fuel isAnd cs₂) o := by
   rw [mkJS_sem ops f cfg hcfg hs key fuel isAnd cs₁ o hwf, mkJS_sem ops f cfg hcfg hs key fuel isAnd cs₂ o hwf]
   exact jsem_of_mem_iff ops f h isAnd o
 
@@ -445,21 +445,21 @@ theorem junction_depends_on_set (ops : NumOps α) (f : Fit α) (cfg : Cfg) (hcfg
 theorem junction_duplicate_idempotent (ops : NumOps α) (f : Fit α) (cfg : Cfg) (hcfg : cfg.junctionKeepsNot = true)
     {same : Q α → Q α → Bool} (hs : SoundEq same) (key : Q α → String) (fuel : Nat) (isAnd : Bool)
     (c : Q α) (cs : List (Q α)) (o : Obj α) (hwf : o.WF = true) :
-    sem ops f (mkJS cfg same key fuel isAnd (c :: c :: cs)) o = sem ops f (mkJS cfg same key fuel isAnd (c :: cs)) o :=
+    sem ops f (mkJS cfg true same key fuel isAnd (c :: c :: cs)) o = sem ops f (mkJS cfg true same key fuel isAnd (c :: cs)) o :=
   junction_depends_on_set ops f cfg hcfg hs key fuel isAnd _ _ (fun x => by simp) o hwf
 
 /-- **Compiler correctness with sets (one fit).** -/
 theorem compile_set_correct (ops : NumOps α) (cfg : Cfg) (hcfg : cfg.junctionKeepsNot = true)
     {same : Q α → Q α → Bool} (hs : SoundEq same) (key : Q α → String) (p : Pred α)
     (f : Fit α) (hwf : f.inst.WF = true) :
-    sem ops f (compileSTop cfg same key p) f.inst = evalDirect ops f p :=
+    sem ops f (compileSTop cfg true same key p) f.inst = evalDirect ops f p :=
   sem_compileS ops f cfg hcfg hs key _ hwf p
 
 /-- **Exactly the fits satisfying the predicate**, for the query object the SQL text is printed from. -/
 theorem query_set_returns_exactly (ops : NumOps α) (cfg : Cfg) (hcfg : cfg.junctionKeepsNot = true)
     {same : Q α → Q α → Bool} (hs : SoundEq same) (key : Q α → String) (p : Pred α)
     (db : List (Fit α)) (hdb : ∀ f ∈ db, f.inst.WF = true) :
-    queryFits ops (compileSTop cfg same key p) db = directFits ops p db := by
+    queryFits ops (compileSTop cfg true same key p) db = directFits ops p db := by
   simp only [queryFits, directFits]
   apply List.filter_congr
   intro f hf
@@ -469,7 +469,7 @@ theorem query_set_returns_exactly (ops : NumOps α) (cfg : Cfg) (hcfg : cfg.junc
 theorem query_set_agrees_with_list (ops : NumOps α) (cfg : Cfg) (hcfg : cfg.junctionKeepsNot = true)
     {same : Q α → Q α → Bool} (hs : SoundEq same) (key : Q α → String) (p : Pred α)
     (db : List (Fit α)) (hdb : ∀ f ∈ db, f.inst.WF = true) :
-    queryFits ops (compileSTop cfg same key p) db = queryFits ops (compileTop cfg p) db := by
+    queryFits ops (compileSTop cfg true same key p) db = queryFits ops (compileTop cfg p) db := by
   rw [query_set_returns_exactly ops cfg hcfg hs key p db hdb, query_returns_exactly ops cfg hcfg p db hdb]
 
 /-! ### the text -/
@@ -514,18 +514,49 @@ def dupPred : Pred Nat :=
 
 example : SoundEq (fun a b : Q Nat => Q.same a b) := Q.same_sound
 -- the repeated comparison is kept once (list version: `g(&[centre(&[V,V]),sigma(V)])`)
-example : (compileSTop {} Q.same Q.render dupPred).render = "g(&[centre(V),sigma(V)])" := by decide +kernel
+example : (compileSTop {} true Q.same Q.render dupPred).render = "g(&[centre(V),sigma(V)])" := by decide +kernel
 example : (compileTop {} dupPred).render = "g(&[centre(&[V,V]),sigma(V)])" := by decide
 -- `A & A` is `A`
-example : (compileSTop {} Q.same Q.render
+example : (compileSTop {} true Q.same Q.render
     ((.and (.fitc (.boolAttr "is_complete")) (.fitc (.boolAttr "is_complete"))) : Pred Nat)).render = "F" := by
   decide +kernel
-example : (queryFits natOps (compileSTop {} Q.same Q.render dupPred) db).map (·.id) = ["a"] := by decide +kernel
-example : (queryFits natOps (compileSTop {} Q.same Q.render mixed) db).map (·.id) = ["a", "b", "c", "e"] := by
+example : (queryFits natOps (compileSTop {} true Q.same Q.render dupPred) db).map (·.id) = ["a"] := by decide +kernel
+example : (queryFits natOps (compileSTop {} true Q.same Q.render mixed) db).map (·.id) = ["a", "b", "c", "e"] := by
   decide +kernel
 example : (canon Q.same Q.render ([Q.type "b", Q.isNone, Q.type "b", Q.type "a"] : List (Q Nat))).map Q.render
     = ["0", "T", "T"] := by decide +kernel
 example : junctionFitText true ["x", "y"] = junctionFitText true ["y", "x"] :=
   junction_text_order_irrelevant true _ _ (List.Perm.swap "y" "x" [])
+
+/-! ### bare paths as predicates (`agg.model.g`: the attribute exists) -/
+
+/-- `g | (g.centre == 1)` -/
+def bareOr : Pred Nat := .or (.path "g" [] .any) (.path "g" ["centre"] (.num .eq 1))
+
+/-- **Bare path.** `aggregator.model.a.b` used as a predicate selects the fits whose instance has `a.b`. -/
+theorem bare_path_correct {α : Type} (ops : NumOps α) (f : Fit α) (hwf : f.inst.WF = true) (n : String) (ns : List String) :
+    sem ops f (pathQ (n :: ns) .any) f.inst = (f.inst.follow (n :: ns)).isSome := by
+  rw [path_comparison_correct ops f hwf n ns .any]
+  cases f.inst.follow (n :: ns) <;> simp [leafHolds]
+
+/-- The pinned commit (`bare = false`: a named query without other condition is merged under `Or` and its missing
+condition skipped) violates the property: `g | (g.centre == 1)` returns only the fits with `centre == 1`.
+(`compile_set_correct` is the positive statement, for `bare = true`, fixes/C10-bare-path-in-junction.patch.) -/
+theorem compile_refuted_bare_or :
+    ∃ (p : Pred Nat) (db : List (Fit Nat)), (∀ f ∈ db, f.inst.WF = true) ∧
+      (queryFits Witness.natOps (compileSTop {} false Q.same Q.render p) db).map (·.id)
+        ≠ (directFits Witness.natOps p db).map (·.id) :=
+  ⟨bareOr, Witness.db, by decide, by decide +kernel⟩
+
+-- repaired: every fit has `g`; pinned: the alternative is lost
+example : (queryFits natOps (compileSTop {} true Q.same Q.render bareOr) db).map (·.id) = ["a", "b", "c", "d", "e"] := by
+  decide +kernel
+example : (directFits natOps bareOr db).map (·.id) = ["a", "b", "c", "d", "e"] := by decide +kernel
+example : (queryFits natOps (compileSTop {} false Q.same Q.render bareOr) db).map (·.id) = ["a", "c"] := by
+  decide +kernel
+example : (compileSTop {} true Q.same Q.render bareOr).render = "|[g(&[]),g(centre(V))]" := by decide +kernel
+-- under `&` the bare query is merged (its missing condition is an empty conjunction)
+example : (compileSTop {} true Q.same Q.render
+    (.and (.path "g" [] .any) (.path "g" ["centre"] (.num .eq 1)) : Pred Nat)).render = "g(centre(V))" := by decide +kernel
 
 end AF.C10
